@@ -62,6 +62,7 @@ class Interp(object):
         self.summaries = {}     # (cls, name) -> callable(interp, st, recv, args, kw, frame, node) -> results
         self.ext_handlers = {}  # external name -> callable
         self.max_paths = 400000
+        self.deadline = None    # wall-clock limit of one entry-point evaluation (set by the handler workers)
         self.modular = {}       # (cls, name) -> True: evaluate once in isolation, abstract numeric results
         self.modular_cache = {}
         self.trace_classes = set(['ExcludeRegionState', 'GcodeHandlers', 'RetractionState', 'ExcludeRegionPlugin',
@@ -393,6 +394,11 @@ class Interp(object):
 
     def stmt(self, st, env, s, frame):
         self.stats['stmts'] += 1
+        if self.deadline is not None and self.stats['stmts'] % 2000 == 0:
+            import time as _time
+            if _time.time() > self.deadline:
+                raise AnalysisError('analysis budget exceeded in %s after %d abstract statements (path explosion: a construct '
+                                    'the path merging / loop summaries do not cover)' % (frame.qual(), self.stats['stmts']))
         if isinstance(s, ast.Expr):
             if isinstance(s.value, ast.Constant):
                 return [(st, env, None)]
